@@ -8,6 +8,8 @@ package lsm
 import (
 	"errors"
 	"fmt"
+	"runtime"
+	"time"
 
 	"github.com/feichai0017/NoKV/kv"
 	"github.com/feichai0017/NoKV/utils"
@@ -78,9 +80,37 @@ func VerifOpenTable(dir string, fid uint64, o VerifTableOpts) (vt *VerifTable, e
 	return &VerifTable{lm: lm, t: t}, nil
 }
 
+// Prefetching iterators hand loadBlock tasks to a worker pool; tableIterator.Close does not wait for tasks that
+// are already running, and in the engine the table's reference count keeps the mapping alive for them. This
+// harness closes the file handle directly (it must not DecrRef to zero: that deletes the file), so it has to
+// wait until no prefetch task is running before it unmaps - otherwise a late task reads unmapped memory and
+// the process dies with SIGSEGV. The pool publishes its number of running tasks.
+var verifPrefetchActive = utils.GetOrCreateInt("NoKV.Pool.IteratorPrefetch.Active")
+
+// VerifLeakedHandles counts tables whose handle was left open because prefetch tasks did not drain in time.
+var VerifLeakedHandles int
+
+func verifPrefetchIdle() bool {
+	if verifPrefetchActive.Value() <= 0 {
+		return true
+	}
+	deadline := time.Now().Add(5 * time.Second)
+	for verifPrefetchActive.Value() > 0 {
+		if time.Now().After(deadline) {
+			return false
+		}
+		runtime.Gosched()
+	}
+	return true
+}
+
 // Close unmaps and closes the file WITHOUT deleting it (DecrRef to zero would remove the file).
 func (vt *VerifTable) Close() {
-	_ = vt.t.closeHandle()
+	if verifPrefetchIdle() {
+		_ = vt.t.closeHandle()
+	} else {
+		VerifLeakedHandles++ // keep the mapping: a straggling prefetch task may still read it
+	}
 	_ = vt.lm.cache.close()
 }
 
@@ -147,7 +177,12 @@ func (vt *VerifTable) Scan(asc bool, seek []byte, prefetch int) (out []VerifEntr
 		}
 	}()
 	it := vt.t.NewIterator(&utils.Options{IsAsc: asc, PrefetchBlocks: prefetch})
-	defer func() { _ = it.Close() }()
+	defer func() {
+		_ = it.Close()
+		if prefetch > 0 {
+			verifPrefetchIdle()
+		}
+	}()
 	if seek == nil {
 		it.Rewind()
 	} else {
@@ -201,4 +236,7 @@ func (vi *VerifIter) do(f func()) (out *VerifEntry, err error) {
 func (vi *VerifIter) Rewind() (*VerifEntry, error)         { return vi.do(vi.it.Rewind) }
 func (vi *VerifIter) Next() (*VerifEntry, error)           { return vi.do(vi.it.Next) }
 func (vi *VerifIter) Seek(key []byte) (*VerifEntry, error) { return vi.do(func() { vi.it.Seek(key) }) }
-func (vi *VerifIter) Close()                               { _ = vi.it.Close() }
+func (vi *VerifIter) Close() {
+	_ = vi.it.Close()
+	verifPrefetchIdle()
+}
